@@ -156,6 +156,9 @@ func (s *schemaBuilder) Build(definitions map[string]spec.Schema) error {
 	s.inferNames()
 
 	schema := definitions[s.Name]
+	// the members of an allOf are derived from the code again: they replace those the definition of
+	// the input spec carries (appending them once more makes the definition its own ancestor)
+	schema.AllOf = nil
 	err := s.buildFromDecl(s.decl, &schema)
 	if err != nil {
 		return err
